@@ -125,6 +125,34 @@ class Session:
             return True
         if kind == "xfer":
             return await self._xfer(*st[1:])
+        if kind == "pipeline":
+            # several command lines written back to back in one burst, then all replies collected
+            lines = st[1]
+            data = "".join(x + "\r\n" for x in lines).encode()
+            p.transcript.append(("C", " | ".join(lines)))
+            p.writer.write(data)
+            codes = []
+            for _ in lines:
+                r = await p.read_reply(wait=5.0)
+                codes += self._codes(r)
+                if r in (None, "EOF"):
+                    break
+                if r.code == "227":
+                    try:
+                        self.pasv_port = p.parse_pasv(r)[1]
+                    except Exception:
+                        pass
+                elif r.code == "229":
+                    try:
+                        self.pasv_port = p.parse_epsv(r)
+                    except Exception:
+                        pass
+            self.outcomes.append(codes)
+            if "EOF" in codes:
+                self.alive = False
+                self.ended_by = "eof"
+                return False
+            return True
         if kind == "sleep":
             await asyncio.sleep(st[1])
             self.outcomes.append(["SLEPT"])
@@ -339,6 +367,8 @@ def corpus(prefix="", tree_has=("f.bin", "dir/g.txt")):
     S["retr_huge"] = login + [["pasv"], ["xfer", "RETR", f"{P}/huge.bin"], ["quit"]]
     S["abor_mid"] = login + [["pasv"], ["xfer_abort", "RETR", f"{P}/huge.bin", 30000], ["cmd", "PWD"], ["epsv"],
                              ["xfer", "RETR", f"{P}/dir/g.txt"], ["quit"]]
+    S["pipelined"] = login + [["pipeline", ["PASV", "EPSV", "PWD"]], ["xfer", "RETR", f"{P}/dir/g.txt"],
+                              ["pipeline", [f"CWD {P}/dir", "PWD", "CDUP", "PWD"]], ["pipeline", ["EPSV", f"REST 3", f"MLST {P}/f.bin"]], ["quit"]]
     S["relogin"] = login + [["cmd", f"CWD {P}/dir"], ["login"], ["cmd", "PWD"], ["quit"]]
     return S
 
